@@ -404,13 +404,21 @@ CULPRITS = [
     ("let-annot-obj", "let r: { a: int } = jsl.parse_json();", "let:", True, "", None, True),
     ("let-alias", "let r: Num = jsn.parse_json();", "let:", True, "type Num = int;\n", None, True),
     ("let-alias-obj", "let r: Rec = jsl.parse_json();", "let:", True, "type Rec = {\n    a: int,\n    b: str\n};\n", None, True),
+    # an object that lacks a declared field / has a field of the wrong type / has a surplus field, validated against a
+    # named type: the failing construct is the `let`, not the field's declaration inside the type definition
+    ("let-alias-missing-field", "let r: Rec = jso.parse_json();", "let:", True, "type Rec = {\n    a: int,\n    b: str\n};\n", None, True),
+    ("let-alias-wrong-field", "let r: Rek = jso.parse_json();", "let:", True, "type Rek = {\n    a: str\n};\n", None, True),
+    ("let-alias-surplus-field", "let r: Ret = jsx.parse_json();", "let:", True, "type Ret = {\n    a: int\n};\n", None, True),
+    ("let-alias-nested-missing", "let r: Out = jsw.parse_json();", "let:", True, "type Inn = {\n    a: int,\n    b: str\n};\ntype Out = {\n    w: Inn\n};\n", None, True),
+    ("cast-as-alias-missing-field", "jso.parse_json() as Rec", "cast:", True, "type Rec = {\n    a: int,\n    b: str\n};\n", None, False),
     # the culprit sits in a helper function of the same file; the statement only starts the recursion
     # (the culprit is the recursive function: the VM notices the limit at whatever instruction of it is current)
     ("stack-overflow", "fn deep(n: int) -> int {\n    deep(n + 1)\n}", "fn:deep", False, "fn deep(n: int) -> int {\n    deep(n + 1)\n}\n", "deep(0)"),
 ]
 
 PRELUDE = ("    let one = 1;\n    let zero = 0;\n    let seven = 7;\n    let lst = [1, 2, 3];\n    let wrd = \"ab\";\n    let opt: ?int = none;\n"
-           "    let jsn = \"\\\"text\\\"\";\n    let jsl = \"[1, 2]\";\n")
+           "    let jsn = \"\\\"text\\\"\";\n    let jsl = \"[1, 2]\";\n    let jso = \"{\\\"a\\\": 1}\";\n    let jsx = \"{\\\"a\\\": 1, \\\"z\\\": 2}\";\n"
+           "    let jsw = \"{\\\"w\\\": {\\\"a\\\": 1}}\";\n")
 
 
 def runtime_cases(rng, n_layout):
